@@ -384,6 +384,10 @@ def wrappers(x, strict=True, small=False):
     # explicit-size regions pad with zeros: in strict mode the child must either fill the region or be unable to read the padding as
     # data / to succeed on nothing (an absent Optional followed by padding re-parses as a present value)
     sizable = (not strict) or fills(x) or (not greedy and not a.nullable)
+    if strict and normalises(x) and not (x[0] == "NullStripped" and x[2] == b"\x00"):
+        # the zero padding of an explicit-size region is only "nothing" for a child that strips zeros itself; behind a byte
+        # transform (ProcessXor(32, NullStripped(...))) the padding decodes to data
+        sizable = False
     for n in ((2, 4) if small else (0, 2, 4)):
         if sizable:
             out.append(["FixedSized", n, x])
@@ -502,6 +506,8 @@ def wrappers12(x, strict=True):
     greedy = a.extent == "greedy"
     out = [["Prefixed", BYTE, x, False], ["Prefixed", I(2, False, "l"), x, True], ["Struct", [["f0", BYTE], ["f1", x]]], ["If", True, x]]
     sizable = (not strict) or fills(x) or (not greedy and not a.nullable)
+    if strict and normalises(x) and not (x[0] == "NullStripped" and x[2] == b"\x00"):
+        sizable = False
     if sizable:
         out.append(["FixedSized", 4, x])
     if not (strict and a.seeks):
